@@ -101,6 +101,7 @@ type Exec struct {
 	inRes    [][]*types.Var
 	spawns   bool
 	safety   bool
+	aliases  map[types.Object]*lval // map-typed locals bound to a map stored elsewhere (reference semantics)
 }
 
 func (x *Exec) posn(p token.Pos) token.Position { return x.prog.fset.Position(p) }
@@ -743,6 +744,22 @@ func (x *Exec) declare(st *State, id *ast.Ident, v Val) {
 }
 
 func (x *Exec) setVar(st *State, obj types.Object, v Val) {
+	if lv, ok := x.aliases[obj]; ok {
+		if lv.kind == "mapidx" {
+			// the alias came from outer[k]: if k is absent the local is a nil map and writes through it
+			// never reach the container (delete is a no-op, assignment panics)
+			base := x.load(st, lv.base)
+			present := x.vc.mapDom(base, lv.idx.T)
+			cur := x.load(st, lv)
+			v.T = ite(present, v.T, cur.T)
+			nb := base
+			nb.T = ite(present, x.vc.mapStore(base, lv.idx.T, v.T), base.T)
+			x.storeLV(st, lv.base, x.name("upd", nb))
+			return
+		}
+		x.storeLV(st, lv, v)
+		return
+	}
 	v = x.name(obj.Name(), v)
 	v.GoT = obj.Type()
 	if x.boxed[obj] {
@@ -758,6 +775,11 @@ func (x *Exec) setVar(st *State, obj types.Object, v Val) {
 }
 
 func (x *Exec) getVar(st *State, obj types.Object) Val {
+	if lv, ok := x.aliases[obj]; ok {
+		v := x.load(st, lv)
+		v.GoT = obj.Type()
+		return v
+	}
 	if x.boxed[obj] {
 		ref, ok := st.vars[obj]
 		if !ok {
@@ -805,6 +827,17 @@ func (x *Exec) execAssign(st *State, s *ast.AssignStmt) {
 			obj := x.objOf(id)
 			if s.Tok == token.DEFINE || obj != nil {
 				if _, isVar := obj.(*types.Var); isVar && !x.isGlobal(obj) {
+					if len(s.Rhs) == len(s.Lhs) && x.aliasable(obj, s.Rhs[i]) {
+						// m := outer[k] / m := x.f with m a map: m denotes the same map object afterwards
+						delete(x.aliases, obj)
+						x.aliases[obj] = x.lvOf(st, s.Rhs[i])
+						x.vc.note("map-typed local " + obj.Name() + " treated as an alias of " + x.prog.text(s.Rhs[i]))
+						continue
+					}
+					if _, was := x.aliases[obj]; was && s.Tok == token.ASSIGN {
+						// re-binding the variable itself (m = make(...)): no longer an alias
+						delete(x.aliases, obj)
+					}
 					v := x.convertTo(st, vals[i], obj.Type())
 					x.setVar(st, obj, v)
 					continue
@@ -1485,4 +1518,22 @@ func (x *Exec) execRange(st *State, s *ast.RangeStmt, label string) *flow {
 		out.normal = x.merge(append([]*State{exit}, brk...))
 	}
 	return out
+}
+
+// aliasable: a map-typed local initialised from a map element or a field holds a reference to
+// that map; later writes through the local must be visible in the container.
+func (x *Exec) aliasable(obj types.Object, rhs ast.Expr) bool {
+	if _, ok := obj.Type().Underlying().(*types.Map); !ok {
+		return false
+	}
+	switch r := unparen(rhs).(type) {
+	case *ast.IndexExpr:
+		_, ok := x.typeOf(r.X).Underlying().(*types.Map)
+		return ok
+	case *ast.SelectorExpr:
+		if sel := x.selOf(r); sel != nil && sel.Kind() == types.FieldVal {
+			return true
+		}
+	}
+	return false
 }
